@@ -134,98 +134,7 @@ func checkC12(w *World, r *Report) {
 	})
 
 	r.Rule("R12.10", "the compiler keeps no memory from one module to the next beyond its reviewed tables: the fields of compile.Compiler are exactly the reviewed ones, and each map- or slice-valued field is written only by the reviewed functions — a prefix, path or name remembered on the Compiler means something else in the next module (prefixes are per module)", 8)
-	r.guard("R12.10", func() {
-		cst, ok := scopeLookup(w.Pkg("compile").Types.Scope(), "Compiler").(*types.TypeName)
-		if !ok {
-			panic(undecided{"compile.Compiler"})
-		}
-		st := cst.Type().Underlying().(*types.Struct)
-		reviewed := map[string]string{
-			"modules":            "NewCompiler",
-			"modnames":           "Compiler.ExpandModules",
-			"submodules":         "NewCompiler",
-			"identities":         "Compiler.checkIdentities",
-			"deviations":         "NewCompiler;Compiler.addDeviation",
-			"warnings":           "Compiler.saveWarning",
-			"typedefsInProgress": "Compiler.BuildBaseType",
-			"verifiedFeatures":   "NewCompiler;Compiler.checkFeatures",
-		}
-		writers := map[string]map[string]bool{}
-		for _, f := range allFuncs(w.SSAPkg("compile")) {
-			if isTestFile(w, f.Pos()) {
-				continue
-			}
-			who := strings.Join(w.OwnerNames(f), "|")
-			for _, b := range f.Blocks {
-				for _, in := range b.Instrs {
-					var fa *ssa.FieldAddr
-					switch x := in.(type) {
-					case *ssa.Store:
-						fa, _ = x.Addr.(*ssa.FieldAddr)
-					case *ssa.MapUpdate:
-						if ld, ok := x.Map.(*ssa.UnOp); ok {
-							fa, _ = ld.X.(*ssa.FieldAddr)
-						}
-					}
-					if fa == nil {
-						continue
-					}
-					fv := fieldAddrVar(fa)
-					if fv == nil {
-						continue
-					}
-					own := false
-					for i := 0; i < st.NumFields(); i++ {
-						if st.Field(i) == fv {
-							own = true
-						}
-					}
-					if !own {
-						continue
-					}
-					if writers[nm(fv)] == nil {
-						writers[nm(fv)] = map[string]bool{}
-					}
-					writers[nm(fv)][who] = true
-				}
-			}
-		}
-		for i := 0; i < st.NumFields(); i++ {
-			fv := st.Field(i)
-			switch fv.Type().Underlying().(type) {
-			case *types.Map, *types.Slice, *types.Struct:
-			default:
-				continue // flags, callbacks, interfaces set at construction
-			}
-			var ws []string
-			for k := range writers[nm(fv)] {
-				ws = append(ws, k)
-			}
-			sort.Strings(ws)
-			exp, known := reviewed[nm(fv)]
-			if !known {
-				r.Fail("R12.10", "Compiler."+fv.Name(), fv.Pos(), "a field of a mutable kind ("+fv.Type().String()+", written by {"+strings.Join(ws, ",")+"}) that is not among the reviewed ones: what it remembers outlives the module it was computed for")
-				continue
-			}
-			okW := true
-			allowed := map[string]bool{}
-			for _, a := range strings.Split(exp, ";") {
-				allowed[a] = true
-			}
-			for _, x := range ws {
-				any := false
-				for _, nme := range strings.Split(x, "|") {
-					if allowed[nme] {
-						any = true
-					}
-				}
-				if !any {
-					okW = false
-				}
-			}
-			r.Check(okW, "R12.10", "Compiler."+fv.Name(), fv.Pos(), "written by "+strings.Join(ws, ","), "Compiler."+fv.Name()+" is written by {"+strings.Join(ws, ",")+"}, reviewed writers are {"+exp+"}")
-		}
-	})
+	r.guard("R12.10", func() { c12CompilerFields(w, r, "R12.10") })
 
 	r.Rule("R12.8", "expansion reaches every statement: expandGroupings descends into every child of the node it handles, on every iteration", 1)
 	r.guard("R12.8", func() { c12ExpandEveryChild(w, r) })
@@ -1053,4 +962,98 @@ func checkC15(w *World, r *Report) {
 			r.Check(ok, "R15.4", c.typ+".LexName mapFn error", fd.Pos(), "err ≠ nil ⇒ SetError(err); return ERR", "an unknown prefix reported by the mapping function does not stop compilation")
 		}
 	})
+}
+
+// c12CompilerFields (R12.10 / R11.13 / R15.12): the mutable fields of compile.Compiler and their writers are the reviewed ones.
+func c12CompilerFields(w *World, r *Report, rule string) {
+	cst, ok := scopeLookup(w.Pkg("compile").Types.Scope(), "Compiler").(*types.TypeName)
+	if !ok {
+		panic(undecided{"compile.Compiler"})
+	}
+	st := cst.Type().Underlying().(*types.Struct)
+	reviewed := map[string]string{
+		"modules":            "NewCompiler",
+		"modnames":           "Compiler.ExpandModules",
+		"submodules":         "NewCompiler",
+		"identities":         "Compiler.checkIdentities",
+		"deviations":         "NewCompiler;Compiler.addDeviation",
+		"warnings":           "Compiler.saveWarning",
+		"typedefsInProgress": "Compiler.BuildBaseType",
+		"verifiedFeatures":   "NewCompiler;Compiler.checkFeatures",
+	}
+	writers := map[string]map[string]bool{}
+	for _, f := range allFuncs(w.SSAPkg("compile")) {
+		if isTestFile(w, f.Pos()) {
+			continue
+		}
+		who := strings.Join(w.OwnerNames(f), "|")
+		for _, b := range f.Blocks {
+			for _, in := range b.Instrs {
+				var fa *ssa.FieldAddr
+				switch x := in.(type) {
+				case *ssa.Store:
+					fa, _ = x.Addr.(*ssa.FieldAddr)
+				case *ssa.MapUpdate:
+					if ld, ok := x.Map.(*ssa.UnOp); ok {
+						fa, _ = ld.X.(*ssa.FieldAddr)
+					}
+				}
+				if fa == nil {
+					continue
+				}
+				fv := fieldAddrVar(fa)
+				if fv == nil {
+					continue
+				}
+				own := false
+				for i := 0; i < st.NumFields(); i++ {
+					if st.Field(i) == fv {
+						own = true
+					}
+				}
+				if !own {
+					continue
+				}
+				if writers[nm(fv)] == nil {
+					writers[nm(fv)] = map[string]bool{}
+				}
+				writers[nm(fv)][who] = true
+			}
+		}
+	}
+	for i := 0; i < st.NumFields(); i++ {
+		fv := st.Field(i)
+		switch fv.Type().Underlying().(type) {
+		case *types.Map, *types.Slice, *types.Struct:
+		default:
+			continue // flags, callbacks, interfaces set at construction
+		}
+		var ws []string
+		for k := range writers[nm(fv)] {
+			ws = append(ws, k)
+		}
+		sort.Strings(ws)
+		exp, known := reviewed[nm(fv)]
+		if !known {
+			r.Fail(rule, "Compiler."+fv.Name(), fv.Pos(), "a field of a mutable kind ("+fv.Type().String()+", written by {"+strings.Join(ws, ",")+"}) that is not among the reviewed ones: what it remembers outlives the module it was computed for")
+			continue
+		}
+		okW := true
+		allowed := map[string]bool{}
+		for _, a := range strings.Split(exp, ";") {
+			allowed[a] = true
+		}
+		for _, x := range ws {
+			any := false
+			for _, nme := range strings.Split(x, "|") {
+				if allowed[nme] {
+					any = true
+				}
+			}
+			if !any {
+				okW = false
+			}
+		}
+		r.Check(okW, rule, "Compiler."+fv.Name(), fv.Pos(), "written by "+strings.Join(ws, ","), "Compiler."+fv.Name()+" is written by {"+strings.Join(ws, ",")+"}, reviewed writers are {"+exp+"}")
+	}
 }
